@@ -130,5 +130,120 @@ def check_c06(run):
     return finish(run, "model_checking", cov, ASSUME)
 
 
+def tok(t):
+    return "\t" if t == "TAB" else t
+
+
+def frag_wire(p, frag, opidx):
+    """HTTP request for one parameter fragment (pure materialisation of the token sequences)."""
+    import urllib.parse
+    path = "/c03/op%d" % opidx
+    vals = ["".join(tok(t) for t in occ) for occ in frag["vals"]] if frag["present"] else []
+    rq = dict(method="POST", path=path, rawQuery="", headers={})
+    loc = p["in"]
+    if loc == "query":
+        rq["rawQuery"] = "&".join("p=" + urllib.parse.quote(v, safe="") for v in vals)
+    elif loc == "header":
+        if vals:
+            rq["headers"]["P"] = vals
+    elif loc == "path":
+        if not vals or vals[-1] == "":
+            return None
+        rq["path"] = path + "/" + urllib.parse.quote(vals[-1], safe="")
+    elif loc == "formData":
+        rq["headers"]["Content-Type"] = ["application/x-www-form-urlencoded"]
+        rq["body"] = "&".join("p=" + urllib.parse.quote(v, safe="") for v in vals)
+    return rq
+
+
+def check_c03(run):
+    vh = run.build_vh()
+    gen = run.tlc("GenParams", "GenParams", workers=4, timeout=900)
+    if not gen["ok"]:
+        raise Infra("GenParams failed: " + gen["out"][-2000:])
+    cases = sorted((e for t, e in gen["emitted"] if t == "CASE"), key=lambda c: json.dumps(c["p"], sort_keys=True))
+    gb = run.tlc("GenBodies", "GenBodies", workers=1, timeout=900)
+    if not gb["ok"]:
+        raise Infra("GenBodies failed: " + gb["out"][-2000:])
+    bodies = sorted((e for t, e in gb["emitted"] if t == "CASE"), key=lambda c: c["body"])
+    cases = cases + bodies
+    nsh = 4
+    shards = [cases[i::nsh] for i in range(nsh)]
+
+    def one(k):
+        cs = shards[k]
+        cp = run.path("params-%d.ndjson" % k)
+        write_ndjson(cp, [dict(p=c["p"]) if "p" in c else dict(body=c["body"], schema=c["schema"]) for c in cs])
+        sp = run.path("params-%d.json" % k)
+        run.sh([vh, "param-materialise", "-cases", cp, "-out", sp])
+        drv, err = build_server(run, "p%d" % k, sp)
+        if not drv:
+            return [dict(ev="Server", ok=False, err=err[:1500], shard=k)], 0
+        reqs, meta = [], []
+        for i, c in enumerate(cs):
+            if "body" in c:
+                for d in c["instances"]:
+                    reqs.append(dict(id=len(reqs), method="POST", path="/c03/op%d" % i, rawQuery="",
+                                     headers={"Content-Type": ["application/json"]}, taggedBody=d))
+                    meta.append(("body", c["body"], d))
+                reqs.append(dict(id=len(reqs), method="POST", path="/c03/op%d" % i, rawQuery="", headers={"Content-Type": ["application/json"]}))
+                meta.append(("nobody", c["body"], None))
+                continue
+            for f in c["frags"]:
+                rq = frag_wire(c["p"], f, i)
+                if rq is None:
+                    continue
+                rq["id"] = len(reqs)
+                reqs.append(rq); meta.append((c["p"], f))
+        start, resp = run_driver(run, drv, reqs, "p%d" % k)
+        evs = [dict(ev="Server", ok=True, err="", shard=k)]
+        for r, m in zip(resp, meta):
+            if m[0] == "body":
+                evs.append({"ev": "Body", "def": m[1], "doc": m[2], "status": r["status"], "reached": r["reached"],
+                            "params": r["params"], "panicked": r["panicked"], "body": r["respBody"][:200]})
+                continue
+            if m[0] == "nobody":
+                evs.append({"ev": "NoBody", "def": m[1], "status": r["status"], "reached": r["reached"], "panicked": r["panicked"]})
+                continue
+            p, f = m
+            evs.append(dict(ev="Bound", p=p, raw=f, status=r["status"], reached=r["reached"], params=r["params"],
+                            panicked=r["panicked"], body=r["respBody"][:200]))
+        return evs, len(reqs)
+
+    with concurrent.futures.ThreadPoolExecutor(max_workers=nsh) as ex:
+        results = list(ex.map(one, range(nsh)))
+    events = [e for evs, _ in results for e in evs]
+    rejects = validate_trace(run, "TraceParams", "TraceParams", events)
+    for e in rejects:
+        ev = events[e["line"] - 1]
+        if ev["ev"] == "Server":
+            run.violations.append(dict(signature="server shard %d: %s" % (ev["shard"], e["why"]), detail=ev)); continue
+        if ev["ev"] in ("Body", "NoBody"):
+            run.violations.append(dict(signature="%s | body %s" % (e["why"], ev["def"]),
+                                       detail=dict(why=e["why"], definition=ev["def"], doc=ev.get("doc"), status=ev["status"],
+                                                   reached=ev["reached"], params=ev.get("params"), body=ev.get("body"), valid=e.get("expected"))))
+            continue
+        p = ev["p"]
+        kind = p["type"] + ("/" + p["format"] if "format" in p else "")
+        if p["type"] == "array":
+            it = p["items"]
+            kind = "array[%s]" % ("array" if it["type"] == "array" else it["type"]) + ":" + p.get("cf", "none")
+        flags = "".join(k for k in ("required", "allowEmpty") if p.get(k)) + ("+default" if "default" in p else "")
+        sig = "%s | %s %s %s raw=%s" % (e["why"], p["in"], kind, flags, json.dumps(ev["raw"]["vals"]) if ev["raw"]["present"] else "absent")
+        isbool = p["type"] == "boolean" or (p["type"] == "array" and p["items"]["type"] == "boolean")
+        if isbool and e["why"].startswith("the handler runs"):
+            # one defect, one call site (the converter chosen for booleans never fails): keyed by location and kind
+            sig = "boolean parameter accepts a token that is not a boolean | %s %s" % (p["in"], kind)
+        run.violations.append(dict(signature=sig, detail=dict(why=e["why"], p=p, raw=ev["raw"], status=ev["status"], reached=ev["reached"],
+                                                              params=ev["params"], expected=e.get("expected"), body=ev["body"])))
+    nreq = sum(n for _, n in results)
+    cov = dict(states=gen["states"], transitions=gen["transitions"], traces_validated_against_impl=nreq, evaluations=nreq,
+               distinct_nontrivial=len({json.dumps([e.get("p"), e.get("raw"), e.get("def"), e.get("doc")], sort_keys=True) for e in events if e["ev"] != "Server"}),
+               rule="every parameter descriptor of ParamCases (location x kind x required/allowEmptyValue/default, arrays x collectionFormat, nested arrays) x every raw fragment of Frags(p)",
+               samples=[dict(p=e["p"], raw=e["raw"], status=e["status"], reached=e["reached"]) for e in events if e["ev"] == "Bound"][:2],
+               operations=len(cases), servers=nsh, rejected_events=len(rejects), exhaustive=True)
+    return finish(run, "model_checking", cov, ASSUME + ["bounded universe of parameter descriptors and token sequences; lexeme tables of SimpleParam (strconv/strfmt facts)"])
+
+
 def check(run, replay=None):
-    return {"C06": check_c06}[run.pid](run)
+    return {"C06": check_c06, "C03": check_c03}[run.pid](run)
